@@ -21,6 +21,8 @@ CLAIMED["C07"]=("who-may-write the five key families; the three lookup indexes w
   "store effect summaries (who-may-write, direct-access sets per function) + structured-dominance facts over type-checked AST", "4/C07")
 CLAIMED["C11"]=("on the unrecovered paths (Begin/EndBlock, wired epoch hooks, SDK staking-interface callbacks): every explicit panic / Must* / unchecked type assertion is of an accepted class; no dereference after a logged or discarded error; every division has a provably non-zero divisor; parse results are checked",
   "call-graph reachability from unrecovered roots + structured-dominance facts (nil-after-error, division guards) over type-checked AST", "4/C11")
+CLAIMED["C17"]=("single live minter (exomint hook: once, configured identifier, non-zero reward, coins forwarded); AllocateTokens moves the whole fee-collector balance before any exit; remainder-accumulator booking in each allocation function and the commission/shared split; truncating portions; distribution hook before mint hook",
+  "call-graph reachability for who-may-mint + dataflow-shape rules (remainder accumulator) over type-checked AST", "4/C17")
 NA={}
 def main():
     checks=[]
